@@ -217,6 +217,24 @@ def corpus_fp(m, tick=None):
     shot2 = m.Shot(w2, a2, U.Degree(0), atmo=atmo); tick()
     shot2.winds = [m.Wind(U.MPS(3), U.Degree(90), U.Meter(400)), m.Wind(U.MPS(5), U.Degree(270), U.Yard(430))]; tick()
     add([scen.row_fp(r) for r in calc.fire(shot2, U.Meter(300), U.Meter(100)).trajectory])
+    # quantities that are instances of a caller's SUBCLASS of a dimension class (a Distance with its own repr, say) carry their
+    # unit just the same
+    Range = type("Range", (m.Distance,), {"__repr__": lambda self: "Range(%r)" % (self.raw_value,)})
+    Speed = type("Speed", (m.Velocity,), {})
+    def rows_or_error(fn):
+        # (whatever a tree makes of such an argument - rows or an exception - is part of the fingerprint: it must not depend on the
+        #  preferences in force)
+        try:
+            return [scen.row_fp(r) for r in fn().trajectory]
+        except Exception as e:  # noqa
+            return "raised " + type(e).__name__
+    add(rows_or_error(lambda: calc.fire(shot2, Range(400.0, U.Meter), Range(100.0, U.Meter))))
+    a3 = m.Ammo(mbc, Speed(800.0, U.MPS)); tick()
+    shot4 = m.Shot(m.Weapon(Range(6.0, U.Centimeter), Range(25.0, U.Centimeter)), a3, U.Degree(0), atmo=atmo); tick()
+    add(rows_or_error(lambda: calc.fire(shot4, U.Meter(300), U.Meter(100))))
+    # ... and mean the same as the plain quantity
+    add(rows_or_error(lambda: calc.fire(shot2, Range(400.0, U.Meter), Range(100.0, U.Meter)))
+        == rows_or_error(lambda: calc.fire(shot2, U.Meter(400.0), U.Meter(100.0))))
     # winds given NO until-distance: they end at the library's own limit, which is stated in feet (`max_distance_feet`, the
     # default or a custom one) - not in whatever unit happens to be preferred
     w_lim = m.Wind(U.MPS(5), U.Degree(90), max_distance_feet=1200); tick()
